@@ -120,7 +120,14 @@ func fnv(s string) uint64 {
 func (r *run) oracleFail(id, what string, detail any) {
 	r.mu.Lock()
 	defer r.mu.Unlock()
-	b, _ := json.Marshal(map[string]any{"id": id, "what": what, "detail": detail})
+	rec := map[string]any{"id": id, "what": what, "detail": detail}
+	// a shape tag (set from the concrete input) identifies a known finding
+	if m, ok := detail.(map[string]any); ok {
+		if sh, ok := m["shape"].(string); ok && sh != "" {
+			rec["shape"] = sh
+		}
+	}
+	b, _ := json.Marshal(rec)
 	fmt.Fprintln(r.oracle, string(b))
 	r.nOracle++
 }
